@@ -155,10 +155,16 @@ func goSliceEnumerate(obj *object, all bool, each func(string) bool) {
 
 func goSliceDefineOwnProperty(obj *object, name string, descriptor property, throw bool) bool {
 	if name == propertyLength {
-		obj.value.(*goSliceObject).setLength(descriptor.value.(Value))
+		value, ok := descriptor.value.(Value)
+		if !ok {
+			// An accessor, or attributes without a value: the length of a Go slice is a plain number.
+			return obj.runtime.typeErrorResult(throw)
+		}
+		obj.value.(*goSliceObject).setLength(value)
 		return true
 	} else if index := stringToArrayIndex(name); index >= 0 {
-		if obj.value.(*goSliceObject).setValue(index, descriptor.value.(Value)) {
+		// An accessor, or attributes without a value: a Go slice holds plain values.
+		if value, ok := descriptor.value.(Value); ok && obj.value.(*goSliceObject).setValue(index, value) {
 			return true
 		}
 		return obj.runtime.typeErrorResult(throw)
